@@ -150,6 +150,8 @@ t("C46","exploration",RM+"accept-implies-authentic oracle with per-pool counter 
   "Messages with single-field corruptions, unregistered pools and counter walks; accept implies every authentication fact, recomputed independently.",
   "KES verifier injected from the kes package")
 
+READY = set(open(os.path.join(V, "tools", "ready.txt")).read().split())
+
 def main():
     props = [json.loads(l) for l in open(os.path.join(V, "properties.jsonl"))]
     checks, na = [], []
@@ -158,7 +160,7 @@ def main():
         cat, tech, text, note = T[i]
         d = os.path.join(V, "harness", "mon", i.lower())
         ready = os.path.isdir(d) and os.path.exists(os.path.join(V, "harness", "mon", "imp_%s.go" % i.lower())) \
-            and not os.path.exists(os.path.join(d, "WIP"))
+            and i in READY
         if not ready:
             na.append({"property_id": i, "reason": "monitor not built yet (work in progress); planned technique: " + tech})
             continue
